@@ -130,6 +130,8 @@ def frame_violations(path, allow_attrs=('execution_time',)):
             bad.append(f'store into {path.ex.param_provs[e[1]]} at {e[2]}')
         if e[0] == 'gv_write':
             bad.append(f'write to gv.{e[1]} at {e[2]}')
+        if e[0] == 'module_state_write':
+            bad.append(f'write to module-level state {e[1][1]} (module {e[1][0]}) at {e[2]}: results may depend on earlier calls')
     return bad
 
 
